@@ -348,6 +348,8 @@ def convert(A, tc):
 
 
 def set_size(A, m, n):
+    if not (0 <= m < 2 ** 31 and 0 <= n < 2 ** 31):
+        raise Refuse('TypeError', 'dimensions out of range')
     if m < 0 or n < 0 or m * n != A.m * A.n:
         raise Refuse('TypeError', 'number of elements cannot change')
     A.m, A.n = m, n
@@ -449,6 +451,8 @@ def blocks(cols, tc=None, size=None):
 def fromnum(x, size=None, tc=None):
     """matrix(number[, (m, n)][, tc]): a 1x1 matrix, or an m x n matrix filled with the number"""
     t = tcnum(x)
+    if t == 'i' and (tc in (None, 'i')) and not (-2 ** 63 <= x < 2 ** 63):
+        raise Refuse('OverflowError', 'integer does not fit the element type')
     if tc is None:
         tc = t
     if ORDER[t] > ORDER[tc]:
